@@ -46,8 +46,6 @@ def parse2 (a b c d : String) : Option (IR × IR) := do
 section heap
 open WuffsVerif.IntervalHeap
 
-def viewOf (h : Heap) (z : HIR) : IR := ⟨z.lo.map h.get, z.hi.map h.get⟩
-
 def provOf (x y : HIR) (n : Nat) (z : HIR) : String :=
   (classify x y n z.lo).toString ++ " " ++ (classify x y n z.hi).toString
 
@@ -61,28 +59,28 @@ def heapRange (X Y : IR) (f : HIR → HIR → HM HIR) : String :=
   let (x, y, h) := setup X Y
   match f x y h with
   | none => "panic"
-  | some (z, h') => "ok " ++ showIR (viewOf h' z) ++ " " ++ provOf x y h.size z
+  | some (z, h') => "ok " ++ showIR (viewAt h' z) ++ " " ++ provOf x y h.size z
 
 def heapApi (op : Op) (X Y : IR) : String :=
   let (x, y, h) := setup X Y
   match runOp op x y h with
   | none => "panic"
   | some (none, _) => "fail"
-  | some (some z, h') => "ok " ++ showIR (viewOf h' z) ++ " " ++ provOf x y h.size z
+  | some (some z, h') => "ok " ++ showIR (viewAt h' z) ++ " " ++ provOf x y h.size z
 
 def heapSplit2 (X : IR) : String :=
   let (x, y, h) := setup X ⟨none, none⟩
   match split2Ways x h with
   | none => "panic"
   | some ((n, p, hn, hp), h') =>
-    s!"s {showIR (viewOf h' n)} {showIR (viewOf h' p)} {hn} {hp} {provOf x y h.size n} {provOf x y h.size p}"
+    s!"s {showIR (viewAt h' n)} {showIR (viewAt h' p)} {hn} {hp} {provOf x y h.size n} {provOf x y h.size p}"
 
 def heapSplit3 (X : IR) : String :=
   let (x, y, h) := setup X ⟨none, none⟩
   match split3Ways x h with
   | none => "panic"
   | some ((n, p, hn, hz, hp), h') =>
-    s!"s {showIR (viewOf h' n)} {showIR (viewOf h' p)} {hn} {hz} {hp} {provOf x y h.size n} {provOf x y h.size p}"
+    s!"s {showIR (viewAt h' n)} {showIR (viewAt h' p)} {hn} {hz} {hp} {provOf x y h.size n} {provOf x y h.size p}"
 
 end heap
 
